@@ -267,5 +267,122 @@ Section MapFacts.
               intros Eu. apply E0. rewrite Eu. ring. }
         destruct Hy as [y0 [Hs Hy0]]. rewrite Hs. apply (finish x2 y0 false Hy0).
     Qed.
+
+    (* ---------------------------------------------------------------- the coded map is the RFC map *)
+    (* RFC 9380 section 6.7.1 (`ell2_rfc_mont`: steps 1-10, step 2 "if x1 == 0, set x1 = -(J/K)" included) followed by
+       the rational map of appendix D.1 (`mont_to_te`).  No premise on the shape of the field: over p = 3 (mod 4) the
+       exceptional denominator 1 + Z u^2 has the roots u = +-sqrt(-1/Z) and the statements below cover them. *)
+    Local Notation inv0 := (Maps.inv0 0 inv eqb).
+    Local Notation rfc_x1 := (ell2_rfc_x1 0 1 add mul neg inv eqb jk z).
+    Local Notation rfc_mont := (ell2_rfc_mont 0 1 add sub mul neg inv eqb is_qr sqrt parity k j z).
+    Local Notation to_te := (mont_to_te 0 1 add sub mul inv eqb).
+
+    Lemma inv_neq0 : forall a, a <> 0 -> inv a <> 0.
+    Proof.
+      intros a Ha E. apply (F_1_neq_0 FT). transitivity (a * inv a); [field; exact Ha | rewrite E; ring].
+    Qed.
+
+    (* steps 1-2 of the RFC = the coded `-(J/K) / (if den_1 == 0 then 1 else den_1)`   (J = 0 included) *)
+    Lemma ell2_x1_is_rfc : forall u,
+      - jk * inv (if is0 (1 + z * sq u) then 1 else 1 + z * sq u) = rfc_x1 u.
+    Proof.
+      intros u. unfold ell2_rfc_x1, Maps.inv0. set (den := 1 + z * sq u).
+      destruct (is0 den) eqn:Eden.
+      - assert (E0 : - jk * 0 = 0) by ring. rewrite E0.
+        assert (Ez : is0 0 = true) by (apply is0_true; reflexivity). rewrite Ez.
+        field. exact (F_1_neq_0 FT).
+      - apply is0_false in Eden.
+        destruct (is0 (- jk * inv den)) eqn:Et; [|reflexivity].
+        apply is0_true in Et. rewrite Et.
+        destruct (mul_eq0 _ _ Et) as [E|E].
+        + symmetry. exact E.
+        + exfalso. exact (inv_neq0 den Eden E).
+    Qed.
+
+    Lemma ell2_x1_exceptional : forall u, 1 + z * sq u = 0 -> rfc_x1 u = - jk.
+    Proof.
+      intros u Hu. rewrite <- ell2_x1_is_rfc. apply is0_true in Hu. rewrite Hu. field. exact (F_1_neq_0 FT).
+    Qed.
+
+    (* the tail of the coded map (Montgomery -> twisted Edwards with the tv2 == 0 case) is `mont_to_te` *)
+    Lemma ell2_tail_is_mont_to_te : forall s t,
+      (if is0 ((s + 1) * t) then (0, 1)
+       else (inv ((s + 1) * t) * (s + 1) * s, inv ((s + 1) * t) * t * (s - 1))) = to_te (s, t).
+    Proof.
+      intros s t. unfold mont_to_te, Maps.inv0. destruct (is0 ((s + 1) * t)) eqn:E; [|reflexivity].
+      f_equal. ring.
+    Qed.
+
+    Definition ell2_sign (q : bool) (y0 : K) : K :=
+      if q then (if parity y0 then y0 else - y0) else (if parity y0 then - y0 else y0).
+    Lemma ell2_sign_coded : forall q y0,
+      (if negb (Bool.eqb (parity y0) q) then - y0 else y0) = ell2_sign q y0.
+    Proof. intros q y0. unfold ell2_sign. destruct q, (parity y0); reflexivity. Qed.
+
+    (* for EVERY u whose gx1 is not 0 (see O-a in NOTES.md: at gx1 = 0 the code takes x2 where the RFC takes x1), the
+       exceptional inputs u = 0 and 1 + Z u^2 = 0 included: the coded map returns exactly the RFC point *)
+    Theorem ell2_coded_equals_rfc : forall u,
+      gm (rfc_x1 u) <> 0 ->
+      exists Q, rfc_mont u = Some Q /\ ell2 u = MOk (to_te Q).
+    Proof.
+      intros u Hg.
+      destruct (ell2_correct u) as [v [w [Hc _]]].
+      assert (Ejk : j * inv k = jk) by (rewrite <- jk_def; field; exact k_nz).
+      assert (Eki : inv (sq k) = ki).
+      { unfold Maps.sq. transitivity (ki * (k * k) * inv (k * k)); [rewrite ki_def; ring | field; exact k_nz]. }
+      unfold ell2_rfc_mont. rewrite Ejk, Eki.
+      revert Hc. unfold ell2_coded. rewrite (ell2_x1_is_rfc u).
+      set (x1 := rfc_x1 u) in *.
+      set (x2 := - x1 - jk).
+      assert (Esq : is_square_rfc 0 eqb is_qr (gm x1) = is_qr (gm x1)).
+      { unfold is_square_rfc. apply is0_false in Hg. rewrite Hg. reflexivity. }
+      cbv zeta. rewrite Esq.
+      destruct (if is_qr (gm x1) then sqrt (gm x1) else sqrt (gm x2)) as [y0|]; [|discriminate].
+      rewrite ell2_sign_coded. rewrite ell2_tail_is_mont_to_te.
+      destruct (te_on 1 add mul eqb ta td _); [|discriminate].
+      intros _. eexists. split; [reflexivity|].
+      unfold ell2_sign. destruct (is_qr (gm x1)); reflexivity.
+    Qed.
+
+    (* the exceptional inputs 1 + Z u^2 = 0 (they exist exactly when -1/Z is a square, e.g. p = 3 (mod 4)):
+       J <> 0 (a precondition of Elligator 2) makes gx1 = g(-J/K) = -(J/K)/K^2 non-zero there *)
+    Corollary ell2_exceptional_is_rfc : forall u,
+      jk <> 0 -> 1 + z * sq u = 0 ->
+      exists Q, rfc_mont u = Some Q /\ ell2 u = MOk (to_te Q).
+    Proof.
+      intros u Hj Hu. apply ell2_coded_equals_rfc. rewrite (ell2_x1_exceptional u Hu).
+      assert (E : gm (- jk) = - (jk * ki)) by (unfold Maps.sq; ring). rewrite E.
+      apply neg_neq0. apply mul_neq0; [exact Hj|].
+      intros Ek. apply (F_1_neq_0 FT). rewrite <- ki_def, Ek. ring.
+    Qed.
+
+    (* ... and their value, spelled out: x1 = -(J/K) (RFC step 2); if g(-J/K) is a square the point is
+       (s, t) = (-J, K * y) with sgn0(y) = 1, y^2 = g(-J/K) = -(J/K)/K^2; otherwise x2 = 0 and the point is (0, 0) -> identity (0, 1) *)
+    Theorem ell2_exceptional_value : forall u,
+      1 + z * sq u = 0 ->
+      (is_qr (- (jk * ki)) = true ->
+         exists y0, sqrt (- (jk * ki)) = Some y0 /\ y0 * y0 = - (jk * ki) /\
+           ell2 u = MOk (to_te (- jk * k, (if parity y0 then y0 else - y0) * k))) /\
+      (is_qr (- (jk * ki)) = false -> ell2 u = MOk (0, 1)).
+    Proof.
+      intros u Hu.
+      destruct (ell2_correct u) as [v [w [Hc _]]].
+      assert (E : gm (- jk) = - (jk * ki)) by (unfold Maps.sq; ring).
+      split; intros Hq; revert Hc; unfold ell2_coded;
+        rewrite (ell2_x1_is_rfc u), (ell2_x1_exceptional u Hu); cbv zeta; rewrite E, Hq.
+      - destruct (sqrt_ok _ Hq) as [y0 [Hs Hy]]. rewrite Hs.
+        rewrite ell2_sign_coded, ell2_tail_is_mont_to_te.
+        destruct (te_on 1 add mul eqb ta td _); [|discriminate].
+        intros _. exists y0. split; [reflexivity|]. split; [exact Hy|]. reflexivity.
+      - assert (Ex2 : - - jk - jk = 0) by ring. rewrite Ex2.
+        assert (Eg : gm 0 = 0) by (unfold Maps.sq; ring). rewrite Eg, sqrt_zero.
+        rewrite ell2_sign_coded, ell2_tail_is_mont_to_te.
+        assert (Ey : ell2_sign false 0 = 0) by (unfold ell2_sign; destruct (parity 0); ring).
+        rewrite Ey. unfold mont_to_te, Maps.inv0.
+        assert (Et : (0 * k + 1) * (0 * k) = 0) by ring. rewrite Et.
+        assert (Ez : is0 0 = true) by (apply is0_true; reflexivity). rewrite Ez.
+        assert (Ev : 0 * (0 * k + 1) * (0 * k) = 0) by ring. rewrite Ev.
+        destruct (te_on 1 add mul eqb ta td (0, 1)); [|discriminate]. reflexivity.
+    Qed.
   End Ell2.
 End MapFacts.
